@@ -507,11 +507,12 @@ fn c06_fault(case: &Case) {
     let call_timeout = Duration::from_millis(pick(&[50u64, 200, 1000]));
     let pre_kill_us = pick(&[0u64, 100, 5_000]);
     let subscribe = coin();
+    let push_first = coin();
     // the fatal message arrives from a peer that has stopped reading while a caller with a
     // large request is parked in its send: the calls in flight must fail all the same
     let peer_stops_reading = matches!(kill, Kill::Text | Kill::BadRepe(_) | Kill::WsGarbage | Kill::CloseFrameHeld) && simkernel::choose(3) == 0;
     case.sample(json!({"scenario": "connection-fault", "in_flight": n_inflight, "kill": format!("{kill:?}"), "server_reads": read_first,
-        "server_answers": answer_first, "per_call_timeouts": with_timeouts, "subscriber": subscribe, "peer_stops_reading": peer_stops_reading}));
+        "server_answers": answer_first, "per_call_timeouts": with_timeouts, "subscriber": subscribe, "notify_pushed_before_the_fault": push_first, "peer_stops_reading": peer_stops_reading}));
     let case = case.clone();
     aio::run(&case.clone(), 3_600, async move {
         let listener = TcpListener::bind("127.0.0.1:0").await.unwrap();
@@ -536,6 +537,11 @@ fn c06_fault(case: &Case) {
                 if sink.send(WsMessage::Binary(echo_of(f).encode())).await.is_err() {
                     return;
                 }
+            }
+            if subscribe && push_first {
+                // the subscriber has already been served once when the connection fails
+                let n = Frame::new(0, b"/pushed", b"\"early\"").with_formats(1, 2).notify(1);
+                let _ = sink.send(WsMessage::Binary(n.encode())).await;
             }
             // the peer keeps draining what the client writes (peer stalls are C05's quantifier)
             if peer_stops_reading {
